@@ -374,7 +374,7 @@ fn run(id: &str, tier: Tier) -> i32 {
             eprintln!("fuzz targets are not built (cargo +nightly fuzz build failed?): fuzzing stage skipped");
             fuzz_extra = json!({"fuzz": {"skipped": "targets not built"}});
         } else {
-            let runs: u64 = std::env::var("VERIF_FUZZ_RUNS").ok().and_then(|s| s.parse().ok()).unwrap_or(250_000);
+            let runs: u64 = std::env::var("VERIF_FUZZ_RUNS").ok().and_then(|s| s.parse().ok()).unwrap_or(120_000);
             let fo = fuzz::campaign(&ctx.root, id, seed, nw.max(1), runs, &outdir, &ctx.corpus, 2400);
             let scratch = outdir.join("scratch-fuzz");
             let env_strict = ctx.env(tier, seed, false, scratch.clone());
